@@ -142,6 +142,8 @@ class Gen:
 
 
 def _opts(rnd):
+    if rnd.random() < 0.12:         # exactly the two flags the deprecated entry points know
+        return {'math_mode': rnd.choice(['text', 'verbatim']), 'keep_comments': rnd.random() < 0.6}
     o = {'math_mode': rnd.choice(H.MATH_VALUES), 'keep_comments': rnd.random() < 0.5,
          'strict_latex_spaces': rnd.choice(H.SLS_VALUES)}
     if rnd.random() < 0.3:
@@ -218,6 +220,21 @@ def oracle(c):
         return ('latex_to_text-raised-%s' % type(e).__name__, {})
     meta = d['meta']
     mm = o.get('math_mode', 'text')
+    # the deprecated module-level entry points take the same two flags and must give what the class gives
+    if set(o) <= {'math_mode', 'keep_comments'} and mm in ('text', 'verbatim'):
+        import warnings
+        from pylatexenc import latex2text as L2T
+        kim, kc = (mm == 'verbatim'), bool(o.get('keep_comments'))
+        try:
+            with warnings.catch_warnings():
+                warnings.simplefilter('ignore')
+                legacy = L2T.latex2text(d['s'], tolerant_parsing=True, keep_inline_math=kim, keep_comments=kc)
+                cls = L2T.LatexNodes2Text(keep_inline_math=kim, keep_comments=kc).latex_to_text(d['s'], tolerant_parsing=True)
+        except Exception as e:
+            return ('legacy-latex2text-raised-%s' % type(e).__name__, {})
+        if legacy != cls:
+            return ('legacy-latex2text-differs-from-class', {'legacy': legacy[:300], 'class': cls[:300],
+                                                             'keep_inline_math': kim, 'keep_comments': kc})
     fill = 'fill_text' in o
     squeeze = (lambda x: ' '.join(x.split())) if fill else (lambda x: x)
     outq = squeeze(out)
